@@ -56,7 +56,7 @@ partial def zTo : Z → Sexp
   | .ilit n => .list [.atom "i", Sexp.ofInt n]
   | .rlit q => .list [.atom "r", Sexp.ofInt q.num, Sexp.ofNat q.den]
   | .const x s => .list [.atom "const", .atom x, srtTo s]
-  | .bv i => .list [.atom "bv", Sexp.ofNat i]
+  | .bv i _ => .list [.atom "bv", Sexp.ofNat i]
   | .not a => .list [.atom "not", zTo a]
   | .and a b => .list [.atom "and", zTo a, zTo b]
   | .or a b => .list [.atom "or", zTo a, zTo b]
